@@ -159,6 +159,21 @@ Theorem C07x_hierarchy_from_graph : forall g rho_opt t tau gam theta R,
       (DPhi_sc c N tau gam (fg_phiS0 r) fg_phiR0 theta (vnth 0 e) (vnth 1 e)).
 Proof. exact hierarchy_from_graph. Qed.
 
+(* the effective degree pair with the wrappers' closures (effective degree: the definition generated from the source) *)
+Theorem C07x_effective_degree_from_graph : forall g rho_opt t tau gam theta R,
+  wf_ugraph g = true ->
+  let r := rho_or_default g rho_opt in let c := fg_coeffs g r in let N := gN g in
+  ~ tau == 0 -> ~ theta == 0 -> ~ D c theta == 0 -> ~ D c 1 == 0 ->
+  ~ peval (phiS_p c (fg_phiS0 r)) theta == 0 ->
+  ~ peval (phiI_p c tau gam (fg_phiS0 r) fg_phiR0) theta + peval (phiR_p tau gam fg_phiR0) theta == 0 ->
+  ~ peval (u_p tau gam fg_phiR0) theta == 0 ->
+  let e := dEBCM [theta; R] t N tau gam (fg_psihat g r) (fg_psihatPrime g r) (fg_phiS0 r) fg_phiR0 in
+  veq (dSIR_compact_effective_degree (Phi_ced c N tau gam (fg_phiS0 r) fg_phiR0 theta R) t N tau gam)
+      (DPhi_ced c N tau gam (fg_phiS0 r) fg_phiR0 theta (vnth 0 e) (vnth 1 e)) /\
+  veq (g_dSIR_effective_degree (Phi_ed c N tau gam (fg_phiS0 r) fg_phiR0 theta R) t N (length c, length c) tau gam)
+      (DPhi_ed c N tau gam (fg_phiS0 r) fg_phiR0 theta (vnth 0 e) (vnth 1 e)).
+Proof. exact effective_degree_from_graph. Qed.
+
 (* ---------- preferential mixing, uncorrelated: P(k'|k) = k' P(k') / <k> ---------- *)
 (* continuous time: _dEBCM_pref_mix_ on {theta_k = theta, phiR_k = gamma(1-theta)/tau, R/N} is the push-forward of _dEBCM_
    with psihat = (1-rho) psi, psihat' = (1-rho) psi', phiS0 = 1-rho, phiR0 = 0 (what EBCM_uniform_introduction passes) *)
@@ -173,6 +188,12 @@ Theorem C07x_prefmix_embedding : forall Pk N tau g theta R,
   veq (Phi_pm Pk N tau g theta R) ((R / N) :: pm_eval (pm_p Pk tau g) theta) /\
   forall dth dR, veq (DPhi_pm Pk N tau g dth dR) ((dR / N) :: pm_push (pm_p Pk tau g) theta dth).
 Proof. exact Phi_pm_poly. Qed.
+(* EBCM_pref_mix starts at Phi_pm(1, 0) (IC = [0, 1, 0, 1, 0, ..]) and on the subspace returns EBCM's S = N psihat(theta) and R *)
+Theorem C07x_prefmix_initial_point_and_outputs : forall Pk N rho tau g theta R,
+  veq (pm_IC Pk) (Phi_pm Pk N tau g 1 0) /\
+  (~ N == 0 -> pm_out_S Pk N rho (Phi_pm Pk N tau g theta R) == N * ((1 - rho) * pk_psi Pk theta) /\
+               pm_out_R N (Phi_pm Pk N tau g theta R) == R).
+Proof. exact prefmix_initial_point_and_outputs. Qed.
 (* discrete time: EBCM_pref_mix_discrete and EBCM_discrete (as EBCM_discrete_uniform_introduction calls it: R0 = 0,
    phiR0 = 0, phiS0 = 1-rho) run in lock-step for EVERY number of steps: same theta (all classes), R, S, I *)
 Theorem C07x_prefmix_uncorrelated_discrete : forall (Pk : pkdict) rho p N,
@@ -289,6 +310,8 @@ Print Assumptions C07x_compact_from_graph_on_manifold.
 Print Assumptions C07x_hierarchy_from_graph.
 Print Assumptions C07x_prefmix_uncorrelated_cts.
 Print Assumptions C07x_prefmix_embedding.
+Print Assumptions C07x_prefmix_initial_point_and_outputs.
+Print Assumptions C07x_effective_degree_from_graph.
 Print Assumptions C07x_prefmix_uncorrelated_discrete.
 Print Assumptions C07x_dict_pgf_is_polynomial.
 Print Assumptions C07x_lump_SIR_heterogeneous_meanfield_regular.
